@@ -388,6 +388,14 @@ func runHistory(r *rng.R, id int, wo, wi *bufio.Writer) {
 			pending = nil
 			h, ok := own[A.ms.LastCommitID().Version]
 			emit(op, fmt.Sprintf("ok ver=%d info=%v %s", A.ms.LastCommitID().Version, !ok || bytes.Equal(h, A.ms.LastCommitID().Hash), A.contents()))
+		case c < 18 && r.Chance(1, 4): // a private copy of the live store loads some version (what a height-addressed custom query does): the live store must not notice
+			cur := A.ms.LastCommitID().Version
+			v := int64(0)
+			if r.Bool() {
+				v = int64(r.Intn(int(cur) + 2))
+			}
+			try(func() { cp := (*A.ms.CopyStore()).(*rootmulti.Store); _ = cp.LoadVersion(v) })
+			emit(fmt.Sprintf("K %d", v), "done")
 		case c < 18: // load an explicit version on a scratch instance
 			cur := A.ms.LastCommitID().Version
 			v := int64(r.Intn(int(cur) + 3))
